@@ -342,7 +342,17 @@ func sameElem(a, b ssa.Value) bool {
 		}
 		return fa.X
 	}
-	return base(a) != nil && base(a) == base(b)
+	if base(a) != nil && base(a) == base(b) {
+		return true
+	}
+	// s.pdrs[i].x and s.pdrs[i].y written out twice: two element addresses with the same index value over
+	// the same slice expression, in one block
+	ia, ok1 := base(a).(*ssa.IndexAddr)
+	ib, ok2 := base(b).(*ssa.IndexAddr)
+	if ok1 && ok2 && ia.Index == ib.Index && ia.Block() == ib.Block() && symOf(ia.X).String() == symOf(ib.X).String() {
+		return true
+	}
+	return false
 }
 
 // rootedIn: addr is a field path below the value root (through loads of pointer fields).
@@ -613,6 +623,46 @@ func ruleC13Dispatch(w *World, r *Report, h *ssa.Function) {
 
 // throughFreeVar resolves a captured variable (by value or by reference) to the value bound in the parent.
 func throughFreeVar(v ssa.Value) ssa.Value {
+	// conversions between a named type and its underlying type do not change the value
+	for k := 0; k < 3; k++ {
+		if ct, ok := v.(*ssa.ChangeType); ok {
+			v = ct.X
+		} else {
+			break
+		}
+	}
+	// a parameter of a named function that stands where a function literal used to stand (adopted, see
+	// normalize.go): the argument of its go/defer statement, or the receiver bound into its method value
+	if pv, ok := v.(*ssa.Parameter); ok && pv.Parent() != nil && pv.Parent().Parent() != nil {
+		g := pv.Parent()
+		idx := -1
+		for i, x := range g.Params {
+			if x == pv {
+				idx = i
+			}
+		}
+		var arg ssa.Value
+		allInstrs(g.Parent(), func(i ssa.Instruction) {
+			switch x := i.(type) {
+			case *ssa.Go:
+				if x.Call.StaticCallee() == g && idx < len(x.Call.Args) {
+					arg = x.Call.Args[idx]
+				}
+			case *ssa.Defer:
+				if x.Call.StaticCallee() == g && idx < len(x.Call.Args) {
+					arg = x.Call.Args[idx]
+				}
+			case *ssa.MakeClosure:
+				if bf, ok := x.Fn.(*ssa.Function); ok && bf.Synthetic != "" && unbound(bf) == g && idx == 0 && len(x.Bindings) == 1 {
+					arg = x.Bindings[0]
+				}
+			}
+		})
+		if arg != nil && idx >= 0 {
+			return throughFreeVar(arg)
+		}
+		return v
+	}
 	deref := false
 	if u, ok := v.(*ssa.UnOp); ok && u.Op == token.MUL {
 		if _, isFV := u.X.(*ssa.FreeVar); isFV {
